@@ -125,7 +125,7 @@ def oracle_inv_grad(ck, dims, m, J, filt, size, mask):
             return 'none'
         n_i = t.numel()
         with torch.no_grad():
-            base = [torch.zeros_like(u) for u in ins]
+            base = [torch.zeros(tuple(u.shape), dtype=u.dtype) for u in ins]
             want = torch.zeros(n_i)
             for k in range(n_i):
                 base[i].reshape(-1)[k] = 1
@@ -144,6 +144,11 @@ def oracle_inv_grad(ck, dims, m, J, filt, size, mask):
 def oracle(ck, extended):
     rng = ck.rng
     q = ck.tier == 'quick'
+    # deterministic witnesses of the three recorded findings
+    f4 = (np.array([1., 2., 3., 4.]), np.array([2., -1., 3., 1.])); f6 = (np.array([1., 2., 3., 4., -1., 2.]), np.array([2., -1., 3., 1., 1., -2.]))
+    rt.guard(ck, oracle_fwd_grad, ck, 1, 1, 1, f4, (6,))
+    rt.guard(ck, oracle_inv_grad, ck, 1, 1, 1, f4, 8, 3)
+    rt.guard(ck, oracle_fwd_grad, ck, 1, 2, 1, f6, (4,))
     n = (70 if q else 500) * (3 if extended else 1)
     for it in range(n):
         L = 2 * rng.randint(1, 4 if q else 6); m = rng.choice(gen.MODES5); J = rng.randint(1, 2 if q else 3)    # wavelets have even length
